@@ -322,6 +322,33 @@ Definition mszip_run (out_bytes : N) : sprog N :=
                         | inl (IErr _) => ERR_DECRUNCH
                         | inr (st, _) => st end)).
 
+(* ---------- the stream as cabd.c uses it: several mszipd_decompress calls, leftover frame bytes, permanent errors (strict mode) ---------- *)
+Record zstream := mkZS { zs : zst; zo : N; zend : N; zerr : N }.       (* o_ptr and o_end as window offsets *)
+Definition zinit : zstream := mkZS init 0 0 0.
+Definition zframe : dm unit :=
+  s <- get ;; _ <- remove (N.land (bl s) 7) ;; _ <- find_ck 100000 0 ;;
+  s1 <- get ;; _ <- put (upd_win s1 (win s1) 0 0) ;; inflate 100000.
+(* inflate errors are reported to the caller (status 97) so that it can tell strict mode's DECRUNCH from what repair mode would do *)
+Fixpoint zloop (fuel : nat) (n : N) (st : zst) : sprog (N * bool * zstream) :=
+  match fuel with O => SRet (99, false, mkZS st 0 0 99) | S f =>
+    sbind (zframe st) (fun r =>
+      match r with
+      | inl (IMsp e) => SRet (e, true, mkZS st 0 0 e)
+      | inl (IErr _) => SRet (ERR_DECRUNCH, true, mkZS st 0 0 ERR_DECRUNCH)
+      | inr (_, s2) =>
+        let i := N.min n (bout s2) in
+        SDo (SWrite (win_bytes (N.to_nat i) (win s2) 0 [])) (fun _ =>
+          if n - i =? 0 then SRet (OK, false, mkZS s2 i (bout s2) 0) else zloop f (n - i) s2)
+      end)
+  end.
+(* mszipd_decompress(zip, n): (status, whether inflate() failed in this call, stream) *)
+Definition zcall (n : N) (z : zstream) : sprog (N * bool * zstream) :=
+  if negb (zerr z =? 0) then SRet (zerr z, false, z) else
+  let i := N.min (zend z - zo z) n in
+  let z1 := mkZS (zs z) (zo z + i) (zend z) 0 in
+  let go (_ : unit) := if n - i =? 0 then SRet (OK, false, z1) else zloop 70000 (n - i) (zs z) in
+  if 0 <? i then SDo (SWrite (win_bytes (N.to_nat i) (win (zs z)) (zo z) [])) go else go tt.
+
 (* whole-stream ideal run for the driver *)
 Definition mszip_ideal (inp : list N) (out_bytes : N) : N * list N :=
   match ideal EofPad2 0 (mszip_run out_bytes) {| irest := inp ++ pad EofPad2; iout := [] |} with
